@@ -1,13 +1,19 @@
 import GoRes.Driver.Wire
 import GoRes.Driver.Pat
 import GoRes.Driver.Mux
+import GoRes.Driver.Subs
 /-! `gores-driver <domain>`: one op line in, one line `model<TAB>spec<TAB>tag` out. -/
 open GoRes GoRes.Wire
 
 structure DState where
   mux : GoRes.Driver.Mux.St := {}
 
-def stepLine (dom : String) (st : DState) (line : String) : DState × String :=
+def stepLine (dom : String) (st : DState) (full : String) : DState × String :=
+  -- a line is `op` or `op<TAB>implementation outcome`
+  let (line, impl) := match full.splitOn "\t" with
+    | [l] => (l, "")
+    | l :: r => (l, "\t".intercalate r)
+    | [] => ("", "")
   let fields := splitFields line
   match fields.mapM decField with
   | none => (st, "bad-encoding\t-\tbad")
@@ -17,6 +23,7 @@ def stepLine (dom : String) (st : DState) (line : String) : DState × String :=
     | "mux" =>
       let (ms, m, s, t) := GoRes.Driver.Mux.run st.mux args
       ({ st with mux := ms }, m ++ "\t" ++ s ++ "\t" ++ t)
+    | "subs" => let (m, s, t) := GoRes.Driver.Subs.run args impl; (st, m ++ "\t" ++ s ++ "\t" ++ t)
     | _ => (st, "bad-domain\t-\tbad")
 
 partial def loop (dom : String) (h : IO.FS.Stream) (out : IO.FS.Stream) (st : DState) : IO Unit := do
